@@ -52,6 +52,7 @@ pub fn wild_layout(n: usize, nx: usize, rng: &mut Rng, sparse: bool, max_files: 
             number: *k,
             width: *rng.pick(&[5usize, 5, 5, 1, 2, 8, 20]),
             segs: vec![],
+            symlink: false,
         })
         .collect();
     let mut order: Vec<usize> = (0..n).collect();
@@ -79,6 +80,11 @@ pub fn wild_layout(n: usize, nx: usize, rng: &mut Rng, sparse: bool, max_files: 
         files[f].segs.push(Seg::Extra { i: x });
     }
     files.retain(|f| f.segs.iter().any(|s| matches!(s, Seg::Active { .. })));
+    for f in files.iter_mut() {
+        if rng.chance(1, 8) {
+            f.symlink = true;
+        }
+    }
     if sparse {
         // push one file's content beyond 4 GiB with a hole at the front (and one in the middle)
         let f = rng.usize(0, files.len() - 1);
@@ -227,7 +233,7 @@ impl Prop for C03 {
         }
     }
     fn required_probes(&self, _tier: Tier) -> Vec<&'static str> {
-        vec!["sparse_over_4gib", "backward_physical_order", "foreign_block_present", "file_number_wide", "block_over_32k"]
+        vec!["sparse_over_4gib", "backward_physical_order", "foreign_block_present", "file_number_wide", "block_over_32k", "symlinked_blk_file"]
     }
     fn explore(&self, item: u64, rng: &mut Rng, tier: Tier, h: &mut Harness) -> Result<(), String> {
         let mut scn = world("C03", "layouts", item, rng, tier);
@@ -284,6 +290,9 @@ fn judge_layouts(pfx: &str, scn: &Scenario, m: &Model, outs: &[RunOutcome], st: 
         if l.xor_key.is_some() {
             st.probe("xor_layout");
         }
+        if l.files.iter().any(|f| f.symlink) {
+            st.probe("symlinked_blk_file");
+        }
     }
     if m.built.active.iter().any(|b| b.bytes.len() > 32768) {
         st.probe("block_over_32k");
@@ -328,7 +337,7 @@ impl Prop for C11 {
         }
     }
     fn required_probes(&self, _tier: Tier) -> Vec<&'static str> {
-        vec!["xor_layout", "sparse_over_4gib", "block_over_32k", "key_len_not_8", "chunk_below_period", "zero_key"]
+        vec!["xor_layout", "sparse_over_4gib", "block_over_32k", "key_len_not_8", "chunk_below_period", "zero_key", "key_len_over_256"]
     }
     fn explore(&self, item: u64, rng: &mut Rng, tier: Tier, h: &mut Harness) -> Result<(), String> {
         let mut scn = world("C11", "xor-twin", item, rng, tier);
@@ -336,9 +345,11 @@ impl Prop for C11 {
         let nx = scn.extras.len();
         let sparse = item % 6 == 0;
         let plain = wild_layout(n, nx, rng, sparse, 12);
-        let kl = match rng.below(6) {
+        // the statement says "any length": mostly 1..64 (8 in Bitcoin Core), sometimes much longer
+        let kl = match rng.below(8) {
             0 => 1,
             1 | 2 | 3 => 8,
+            4 => *rng.pick(&[65usize, 100, 255, 256, 257, 300, 1000, 4096, 40000]),
             _ => rng.usize(1, 64),
         };
         let key = match rng.below(8) {
@@ -381,6 +392,9 @@ impl Prop for C11 {
         if let Some(k) = scn.layouts.get(1).and_then(|l| l.xor_key.as_ref()) {
             if k.0.len() != 8 {
                 st.probe("key_len_not_8");
+            }
+            if k.0.len() > 256 {
+                st.probe("key_len_over_256");
             }
             if k.0.iter().all(|b| *b == 0) {
                 st.probe("zero_key");
